@@ -1588,7 +1588,30 @@ class Policy(object):
         return PROCEED
 
     def allany(self, interp, py, it):
-        return PROCEED
+        # all(f(x) for x in xs) / any(...) over a symbolic sequence: an uninterpreted boolean related to ONE arbitrary element
+        # (all: result => f(x);  any: f(x) => result); empty sequence: all -> True, any -> False
+        import builtins as _b
+        ctx = interp.ctx
+        try:
+            kind, seq = interp.as_iterable(it.src)
+        except Exception:
+            return PROCEED
+        if kind != 'sym':
+            return PROCEED
+        n = getattr(self, '_allany_n', 0)
+        self._allany_n = n + 1
+        e = seq[1](('arbitrary', 'allany%d' % n))
+        body = it.fn(e)
+        if body is SymIter.SKIP:
+            return PROCEED
+        try:
+            bz = body if is_z3(body) else z3.BoolVal(bool(interp.truth(body)))
+        except Exception:
+            return PROCEED
+        r = z3.Bool(ctx.fresh('result_of_%s' % py.__name__))
+        ctx.assume(z3.Implies(seq[0] == 0, r if py is _b.all else z3.Not(r)))
+        ctx.assume(z3.Implies(r, bz) if py is _b.all else z3.Implies(bz, r))
+        return r
 
     def call_method(self, interp, recv, name, args, kwargs):
         return PROCEED
